@@ -121,12 +121,11 @@ type Harness struct {
 	ncase int
 }
 
-const ruleText = "one case = (command, payload bytes, protocol state[, preceding messages / repetitions]); distinct = distinct (command,state,payload); block bodies cut at and inside every transaction (child process) first, then the corpus of edge inputs and defect witnesses, per-command structured generators with lying counts / CompactSize forms / wrapping counts (cmpctblock→blocktxn histories with 1-4 unresolved transactions answered with missing / repeated / unrequested / reordered transactions), a mutated copy of every third case, raw wire bytes for FetchMessage, boundary lengths, addr/getaddr against a peers database at its record limit, a peer that does not read its socket (request histories up to the 16 MB send-buffer limit, and every replying command with the buffer preset around that limit), concurrent getdata/inv processing against inv routing in a child process, library entry points"
-const explText = "Real handlers (client/network via verif hook, on a synthetic chain) are run on every case and checked for panic / locks held after return (c.Mutex, Mutex_net, MutexRcv, TxMutex, peersdb, cfg and 7 more) / wall time (watchdog: a handler that does not return is a failure, the locks held meanwhile are named); the Lean model of the parsing layer is asked for the same payload and outcome class, reject reason and exposed parsed fields are compared. Block parsing (NewBlock + BuildTxList, and `block` messages behind an accepted header) runs in a child process, because a panic in one of BuildTxList's worker goroutines ends the process whatever recover() the callers have: the child records the input it is about to run, the parent reports the bytes. A second child process runs a connection's own thread (getdata, inv, SendInvs) concurrently with NetRouteInv/NetRouteInvExt and a statistics reader, so that an unsynchronised access to the connection's shared maps (a fatal runtime error no recover() can catch) becomes an observation. Theorems (Props/C18) are about the model of the parsing layer and about the lock discipline facts regenerated from the source (including: no call, with a mutex held, of a function that locks the same mutex); the backend behind the parser is exercised but not modelled."
+const ruleText = "one case = (command, payload bytes, protocol state[, preceding messages / repetitions]), delivered through TWO streams: (1) framed on the wire to the real OneConnection.Run over a net.Pipe (fresh connection per case; version handshake through Run or state preset; for cases marked enc / trusted through the AES-GCM channel of a real xauth key exchange), (2) to the handler directly through the dispatch mirror; distinct = distinct (stream,command,state,payload); block bodies cut at and inside every transaction (child process) first, then the corpus of edge inputs and defect witnesses, three two-connection scenarios (abused fresh header then honest compact block; corrupt compact-block assembly A / B then honest full block), per-command structured generators with lying counts / CompactSize forms / wrapping counts (cmpctblock→blocktxn histories with 1-4 unresolved transactions answered with missing / repeated / unrequested / reordered transactions; authack unsigned / encrypted by a stranger / signed, payload 0 / 1 / n), a mutated copy of every third case, raw wire bytes (FetchMessage, and the same bytes into Run), boundary lengths, addr/getaddr against a peers database at its record limit, a peer that does not read its socket (request histories up to the 16 MB send-buffer limit, and every replying command with the buffer preset around that limit; direct stream only), concurrent getdata/inv processing against inv routing in a child process, library entry points"
+const explText = "Stream 1 runs the REAL Run: the harness is the peer on the other end of a net.Pipe, nothing of Run is copied - FetchMessage, the version gate, the switch and its inline handlers, Tick/SendInvs, the writing thread, Run's recover() and the tear-down after the loop all execute. Observed after the peer hung up (or the node ended the connection): Run returned within the watchdog time; it did not go through its recover() (report captured from stdout); it closed its socket (Close is the last statement of Run, behind writing_thread_done.Wait: an open socket means Run left through a `return` in the loop or a panic and leaked the writing thread, the descriptor and the in-progress counts); BlocksToGet in-progress counts back at 0, getmp ticket free; c.Mutex and 13 package-level locks free; ban reason / misbehaviour points / parsed fields / replies compared with the Lean model by the same verdict function as stream 2. Stream 2 calls the handlers through VerifDispatch (a clause-by-clause copy of Run's switch that gen_c18 compares with Run's source on every run) and checks panic / locks held after return (c.Mutex, Mutex_net, MutexRcv, TxMutex, peersdb, cfg and 7 more) / wall time (watchdog: a handler that does not return is a failure, the locks held meanwhile are named); it also carries the slow-reader and full-database presets. Block parsing (NewBlock + BuildTxList, and `block` messages behind an accepted header) runs in a child process, because a panic in one of BuildTxList's worker goroutines ends the process whatever recover() the callers have: the child records the input it is about to run, the parent reports the bytes. A second child process runs a connection's own thread (getdata, inv, SendInvs) concurrently with NetRouteInv/NetRouteInvExt and a statistics reader, so that an unsynchronised access to the connection's shared maps (a fatal runtime error no recover() can catch) becomes an observation. Theorems (Props/C18) are about the model of the parsing layer and about the lock discipline facts regenerated from the source (including: no call, with a mutex held, of a function that locks the same mutex; no explicit panic between a Lock and its non-deferred Unlock except two proved unreachable); the backend behind the parser is exercised but not modelled. The library entry points (tx, block, script, signature, public key, address parsers) are FUZZED ONLY (panic / time), with no model beyond C09's Wire for the transaction decoder."
 
 // finish removes the scratch directories (vlib's Finish exits the process) and reports.
 func (h *Harness) finish(rule, expl string, wedged bool) {
-	profStop()
 	if h.o != nil {
 		h.o.Close()
 	}
@@ -837,14 +836,16 @@ func main() {
 	}
 	h := &Harness{r: r, e: e, rn: rn, o: o, cwd: cwd}
 	r.Assume = []string{
-		"the handlers are called through VerifDispatch (client/network/verif_export.go), a copy of the body of Run's loop; gen_c18 re-extracts Run's command table and gate on every run and Lean compares them with the frozen copy",
+		"stream 1 drives the real OneConnection.Run over a net.Pipe; the harness only (a) presets the protocol state on the fresh connection object for a part of the cases (the others do the version handshake, and for enc/trusted cases the xauth key exchange, through Run), (b) wakes the writing thread when Run announces its exit (network.VerifKickWriter; otherwise up to 10 ms idle wait per connection) and (c) re-initialises the connection object of a finished connection instead of allocating 16 MB per case (network.VerifRecycle: every field but the send ring); timer-driven paths of Tick (timeouts of headers / block downloads, pings) do not fire within a case's lifetime",
+		"stream 2 calls the handlers through VerifDispatch (client/network/verif_export.go), a copy of Run's switch; gen_c18 compares the two switches clause by clause (source text after renaming cmd.pl/cmd.trusted/cmd) on every run and refuses to continue on a difference; the version gate in front of the switch is NOT part of that comparison (stream 1 covers it)",
 		"what lies behind the parsing layer (peer database, header acceptance, mempool matching, block queue) runs for real in the harness but is NOT modelled; the model's verdict is compared up to the point where the backend decides",
 		"client globals are initialised by the harness the way client/init.go + client/main.go do (synthetic easy-PoW chain from go/chainkit, empty mempool, temp-dir peers database)",
-		"blocktxn / cmpctblock payloads are compared with the model up to 40000 bytes: the loops of the executable model are linear now (csimp forms proved equal, Props.C18.fast_loops_agree), but C09's Wire.txSize measures the whole unread rest per transaction and the duplicate-short-id test is a list search; at the full size limit only the real code is run",
+		"blocktxn / cmpctblock payloads are compared with the model up to 40000 bytes: the loops of the executable model are linear (csimp forms proved equal, Props.C18.fast_loops_agree), but C09's Wire.txSize measures the whole unread rest per transaction and the duplicate-short-id test is a list search; at the full size limit only the real code is run",
 		"the peers database of the fulldb cases is a volatile qdb filled to exactly MaxPeersInDB+MaxPeersDeviation (±1) records through the public API; the concurrent scenario observes only what the Go runtime itself detects (concurrent map access, deadlock) - it is not run under the race detector",
-		"the slow-reader stream reaches SendRawMsg's overflow branch through real message histories for ping and getheaders (a peer that does not read), and for every other replying command by presetting the exported ring indices SendBufProd/SendBufCons to the state such a history leaves; replies throttled by SendingPaused (getdata) never fill the buffer by themselves",
+		"the slow-reader stream (stream 2 only) reaches SendRawMsg's overflow branch through real message histories for ping and getheaders (a peer that does not read), and for every other replying command by presetting the exported ring indices SendBufProd/SendBufCons to the state such a history leaves; replies throttled by SendingPaused (getdata) never fill the buffer by themselves",
 		"the block-parsing child builds its own synthetic chain from the seed in its spec; a replay carries the input bytes and, for `block` messages, falls back to regenerating the case by index when the header is not one of that chain's",
 		"getmp counts between 2^24 and 2^62 are kept out of the generated stream: ProcessGetMP passes the peer's count as size hint to make(map) (authorised peers only; an out-of-memory abort cannot be observed in-process)",
+		"the trusted (signed) cases use a key pair of the harness whose public key is appended to network.AuthPubkeys; the node's own key pair is the harness's (common.SecretKey)",
 	}
 
 	if r.Replay != "" {
@@ -877,6 +878,7 @@ func main() {
 	// 1b. the consequence the in-progress count stands for: after a peer has abused a fresh header, an honest
 	//     peer's complete compact block for the same header must still be taken
 	h.wedgeScenario()
+	h.corruptAssemblyScenario()
 	// 2. old-guard witnesses: the model with the pre-fix guards must panic / leak on them (keeps the
 	//    counterexample theorems tied to the oracle the harness uses)
 	h.oldWitnesses()
@@ -947,6 +949,73 @@ func (h *Harness) wedgeScenario() {
 			len(seq)/2, roA.InProgress, rcvd, queued, oB.Ban), map[string]interface{}{"case": a, "then": b})
 	} else {
 		h.r.TieOK()
+	}
+}
+
+// corruptAssemblyScenario: connection A makes the node assemble a corrupt copy of a fresh block from a
+// compact block (variant "A": everything prefilled, the coinbase is another block's; variant "B": the wrong
+// coinbase prefilled, one transaction asked for with getblocktxn and supplied correctly, so the corrupt
+// assembly happens in ProcessBlockTxn). A is not penalised by the code. Then connection B delivers the
+// full, correct block: B must not be penalised and the block must be taken (before the fix the block
+// object kept A's transaction list and B was banned with BadBlock).
+func (h *Harness) corruptAssemblyScenario() {
+	for _, variant := range []string{"A", "B"} {
+		var sp []byte
+		var txs [][]byte
+		if variant == "A" {
+			sp = h.e.NextSpare()
+		} else {
+			// a block with two transactions on the tip
+			if len(h.e.Spare2) == 0 {
+				continue
+			}
+			sp = h.e.Spare2[0]
+			h.e.Spare2 = h.e.Spare2[1:]
+		}
+		if sp == nil {
+			continue
+		}
+		txs = blockTxs(sp)
+		hash := btc.NewSha2Hash(sp[:80])
+		wrongcb := blockTxs(h.e.Blocks[50])[0]
+		var a Case
+		if variant == "A" {
+			pf := []prefilled{{vint(0), wrongcb}}
+			for _, t := range txs[1:] {
+				pf = append(pf, prefilled{vint(0), t})
+			}
+			cm := cmpctMsg(sp, 31, vint(0), nil, vint(uint64(len(pf))), pf)
+			a = Case{Cmd: "cmpctblock", Pl: H(cm), Pre: "cv2", Note: "W:cmpctblock-corrupt-assembly-then-honest"}
+		} else {
+			var th btc.Uint256
+			wt, _ := btc.NewTx(txs[1])
+			wt.SetHash(txs[1])
+			th = *wt.WTxID()
+			sid := shortID(sp, 32, th.Hash[:])
+			cm := cmpctMsg(sp, 32, vint(1), [][]byte{sid}, vint(1), []prefilled{{vint(0), wrongcb}})
+			bt := cat(hash.Hash[:], vint(1), txs[1])
+			a = Case{Cmd: "blocktxn", Pl: H(bt), Pre: "cv2", Seq: []Msg{{"cmpctblock", H(cm)}}, Note: "W:cmpctblock-corrupt-assembly-then-honest"}
+		}
+		oA, _, _ := h.rn.DoRun(a)
+		housekeeping()
+		b := Case{Cmd: "block", Pl: H(sp), Note: "W:cmpctblock-corrupt-assembly-then-honest"}
+		oB, _, _ := h.rn.DoRun(b)
+		network.MutexRcv.Lock()
+		_, rcvd := network.ReceivedBlocks[hash.BIdx()]
+		network.MutexRcv.Unlock()
+		housekeeping()
+		h.r.Eval("run:scenario", "corrupt-assembly-"+variant)
+		h.r.Hit("scenario:corrupt-assembly-" + variant + "-then-honest-peer")
+		if oA.Panic != "" || oB.Panic != "" || len(oA.Locks)+len(oB.Locks) > 0 {
+			h.r.PropFail("cmpctblock-corrupt-assembly-then-honest", fmt.Sprintf("corrupt compact-block assembly (%s): panic / lock: %q %q %v %v", variant, oA.Panic, oB.Panic, oA.Locks, oB.Locks), map[string]interface{}{"case": a, "then": b})
+			continue
+		}
+		if oB.Ban != "" || oB.Misbehave != 0 || !rcvd {
+			h.r.PropFail("cmpctblock-corrupt-assembly-then-honest-"+variant, fmt.Sprintf("after connection A made the node assemble a corrupt copy of a fresh block (variant %s; A: ban=%q misbehave=%d), connection B delivered the full correct block and was penalised for it (ban=%q misbehave=%d, block received=%v): bytes from one peer make the node ban another, honest one",
+				variant, oA.Ban, oA.Misbehave, oB.Ban, oB.Misbehave, rcvd), map[string]interface{}{"case": a, "then": b})
+		} else {
+			h.r.TieOK()
+		}
 	}
 }
 
@@ -1048,6 +1117,25 @@ func probe(e *Env, rn *Runner) {
 			b, _ := json.Marshal(o)
 			b2, _ := json.Marshal(ro)
 			fmt.Println(cs.Cmd, cs.Pl, cs.Pre, string(b), string(b2))
+		}
+		return
+	}
+	if os.Getenv("C18_PROBE") == "stale" {
+		sp := e.NextSpare()
+		hash := btc.NewSha2Hash(sp[:80])
+		wrongcb := blockTxs(e.Blocks[50])[0]
+		cm := cmpctMsg(sp, 7, vint(0), nil, vint(1), []prefilled{{vint(0), wrongcb}})
+		o, ro, _ := rn.DoRun(Case{Cmd: "cmpctblock", Pl: H(cm), Pre: "cv2", Note: "probe"})
+		b, _ := json.Marshal(o)
+		b2, _ := json.Marshal(ro)
+		fmt.Println("A (corrupt assembly):", string(b), string(b2))
+		for i := 0; i < 2; i++ {
+			o, _, _ = rn.DoRun(Case{Cmd: "block", Pl: H(sp), Note: "probe"})
+			b, _ = json.Marshal(o)
+			network.MutexRcv.Lock()
+			_, rcvd := network.ReceivedBlocks[hash.BIdx()]
+			network.MutexRcv.Unlock()
+			fmt.Println("honest full block, attempt", i+1, ":", string(b), "received:", rcvd)
 		}
 		return
 	}
